@@ -115,6 +115,14 @@ func (w *World) failErr(id string) error {
 	return e
 }
 
+// typedNilErr: a non-nil error interface holding a nil pointer (err != nil is true).
+func (w *World) typedNilErr(id string) error {
+	var p *myErr
+	var e error = p
+	w.Errs[id] = e
+	return e
+}
+
 func (w *World) record(spec FuncSpec, terms []string) {
 	if w.Quiet {
 		return
@@ -215,7 +223,11 @@ func (w *World) rawFunc(spec FuncSpec) interface{} {
 		}
 		if spec.HasErr {
 			if spec.Fails {
-				res = append(res, reflect.ValueOf(w.failErr(spec.ID)))
+				e := w.failErr(spec.ID)
+				if spec.TypedNil {
+					e = w.typedNilErr(spec.ID)
+				}
+				res = append(res, reflect.ValueOf(&e).Elem())
 			} else {
 				res = append(res, reflect.Zero(errType))
 			}
